@@ -31,6 +31,7 @@ SC = "curve25519_dalek::scalar::Scalar"
 REDUCING = r"::(add|sub|mul|square|montgomery_mul|montgomery_square|montgomery_reduce|from_montgomery|as_montgomery|invert|montgomery_invert|from_bytes_wide)$"
 
 # reviewed raw constructions of Scalar { bytes }: (function path regex, kind, reason)
+CLAMPED_RX = r"(edwards::EdwardsPoint|montgomery::MontgomeryPoint|traits::BasepointTable)::mul(_base)?_clamped$"
 AGG_OK = [
     (r"scalar::<impl .*Scalar(52|29)>::pack$", "pack", "bytes = as_bytes() of the unpacked value (reducedness is the CANON.pack rule)"),
     (r"scalar::Scalar as core::convert::From<u(8|16|32|64|128)>>::from$", "int", "little-endian bytes of an integer below 2^128 < l (rule INT)"),
@@ -342,6 +343,19 @@ def canon(F, R, I):
                             kind = (k, why)
                             break
                     inst = I("Scalar{..}@" + short(f))
+                    if kind is None and not f.get("exported") and str(f.get("vis", "")).startswith("in:"):
+                        # a private constructor helper: classified by its callers - all of them integer conversions that are decided (C02.int) to
+                        # produce the little-endian bytes of an integer below 2^128
+                        cs = [F.fns[k] for k in callers_of(F, f["key"]) if k in F.fns]
+                        ints_ = [re.search(r"scalar::Scalar as core::convert::From<u(8|16|32|64|128)>>::from$", c["path"]) for c in cs]
+                        if cs and all(ints_) and all((INT_SEM(F).get("From<u%s>" % m_.group(1)) or (None,))[0] is True for m_ in ints_):
+                            kind = ("int", "private helper called only from the integer conversions %s, each decided by C02.int to yield the little-endian bytes of an integer below 2^128 < l" %
+                                    ", ".join(sorted("From<u%s>" % m_.group(1) for m_ in ints_)))
+                        elif cs and all(re.search(CLAMPED_RX, c["path"]) for c in cs):
+                            # the documented unreduced multiplier, built in a private helper of the clamped multiplications: the bytes must be clamp_integer(..)
+                            e_ = ex.strip(expr_of(fv, s[2][2][0], 8))
+                            if ex.is_call(e_, r"scalar::clamp_integer$"):
+                                kind = ("clamped", "private helper called only from %s; bytes = clamp_integer(..) (the documented unreduced multiplier, C07)" % ", ".join(sorted(short(c) for c in cs)))
                     if kind is None:
                         R.viol("C02.canon.construct", inst, "raw construction of Scalar { bytes } outside the reviewed set: nothing establishes that the bytes are canonical", fv.loc(s[3]))
                         continue
@@ -374,6 +388,14 @@ def reduced_origin(F, fv, operand, depth=0):
         e = ex.strip(e[1], through_calls=False)
     if ex.is_call(e, REDUCING):
         return True, e[1].split("::")[-1] + "()"
+    if isinstance(e, tuple) and e[0] == "call" and depth < 3:
+        # a local helper all of whose return values are produced by a reducing kernel
+        gs = [g for g in F.fns.values() if "mir" in g and g["kind"] != "Closure" and g["path"] == e[1] and g.get("crate") == "curve25519_dalek"]
+        if len(gs) == 1:
+            gv = view(F, gs[0])
+            ok, w = reduced_origin(F, gv, ["m", [0, []]], depth + 1)
+            if ok:
+                return True, "%s() -> %s" % (e[1].split("::")[-1], w)
     if isinstance(e, tuple) and e[0] == "const":
         return True, "a constant (C12)"
     if isinstance(e, tuple) and e[0] == "local" and depth < 3:
@@ -434,6 +456,36 @@ def decode(F, R, I):
 
 
 # ------------------------------------------------------------------------------------------------------------ INT
+_INT_SEM = {}
+
+
+def INT_SEM(F):
+    """From<uN> for Scalar decided in the bit-provenance domain: instance -> (True | False | None, message)"""
+    if id(F) not in _INT_SEM:
+        import codec_rules as CR
+        _INT_SEM[id(F)] = {inst: (ok, msg) for inst, f_, ok, msg in CR.int_conversions(F)}
+    return _INT_SEM[id(F)]
+
+
+_CALLERS = {}
+
+
+def callers_of(F, key):
+    if id(F) not in _CALLERS:
+        m = {}
+        for g in F.fns.values():
+            if "mir" not in g:
+                continue
+            for b in g["mir"]["blocks"]:
+                t = b.get("t") or {}
+                if t.get("k") == "call":
+                    ck = (t.get("resolved") or {}).get("key") or t.get("callee_key")
+                    if ck:
+                        m.setdefault(ck, set()).add(g["key"])
+        _CALLERS[id(F)] = m
+    return _CALLERS[id(F)].get(key, set())
+
+
 def ints(F, R, I):
     n = 0
     for f in F.fns.values():
@@ -459,7 +511,12 @@ def ints(F, R, I):
                 src = expr_of(fv, t["args"][1], 8)
                 starts0 = bool(ex.find(dst, lambda x: isinstance(x, tuple) and x[0] == "agg" and "Range" in str(x[1]) and ex.is_const(ex.strip(x[2][0]), 0)))
                 good = starts0 and ex.mentions_call(src, r"::to_le_bytes$") and ex.mentions_arg(src, 1)
-        if zero and good:
+        sem = INT_SEM(F).get("From<u%s>" % m.group(1))
+        if sem is not None and sem[0] is True:
+            R.ok("C02.int", inst, sem[1] + " (bit-provenance domain)")
+        elif sem is not None and sem[0] is False:
+            R.viol("C02.int", inst, sem[1], F.loc(f))
+        elif zero and good:
             R.ok("C02.int", inst, "little-endian bytes of the argument at offset 0 of a zeroed [u8; 32]")
         else:
             R.viol("C02.int", inst, "integer conversion is not `zeroed bytes; bytes[0..%d] = x.to_le_bytes()`" % width, F.loc(f))
